@@ -1,5 +1,6 @@
 import Pm.Dev2Login
 import Pm.Dev2Clip
+import Pm.Dev2Walk
 /-! descriptor / child-process bookkeeping of the connection layer (`device.c:_connect/_disconnect/_reconnect/
     _handle_ready_device`, `device_tcp.c`, `device_pipe.c`) on the mirror `Pm/Dev2.lean`: helper lemmas for
     `Props/C20` (no resource leaks) and `Props/C07` (no device behaviour can crash the daemon). -/
@@ -227,11 +228,18 @@ def isCAssert : Sys → Bool
   | .abort s => isCAssertStr s
   | _ => false
 
+/-- the fifth assert of the connection layer: `_handle_ready_device: assert(dev->finish_connect != NULL)` — the method exists
+    for tcp devices only -/
+def pAssertStr : String := "assert finish_connect != NULL"
+def isPAssert : Sys → Bool
+  | .abort s => s == pAssertStr
+  | _ => false
+
 /-- log entries that neither open nor close a descriptor, neither create nor signal nor reap a child, and are not
     a C assert -/
 def neutral : Sys → Bool
   | .connect _ | .soerror _ | .read _ | .write _ _ => true
-  | .abort s => !isCAssertStr s
+  | .abort s => !isCAssertStr s && !(s == pAssertStr)
   | _ => false
 
 /-- descriptor audit: the list of open descriptors after one system call; `none` = a `close` of a descriptor that
@@ -301,6 +309,8 @@ theorem kidStep_neutral (k : List Nat × List Nat) (s : Sys) (hs : neutral s = t
   cases s <;> simp_all [neutral, kidStep]
 theorem isCAssert_neutral (s : Sys) (hs : neutral s = true) : isCAssert s = false := by
   cases s <;> simp_all [neutral, isCAssert]
+theorem isPAssert_neutral (s : Sys) (hs : neutral s = true) : isPAssert s = false := by
+  cases s <;> simp_all [neutral, isPAssert]
 
 theorem fdRun_neutral (h : List Nat) (l : List Sys) (hl : l.all neutral = true) : fdRun h l = some h := by
   induction l with
@@ -314,6 +324,10 @@ theorem noAssert_neutral (l : List Sys) (hl : l.all neutral = true) : l.any isCA
   induction l with
   | nil => rfl
   | cons s r ih => simp only [List.all_cons, Bool.and_eq_true] at hl; simp [isCAssert_neutral s hl.1, ih hl.2]
+theorem noPAssert_neutral (l : List Sys) (hl : l.all neutral = true) : l.any isPAssert = false := by
+  induction l with
+  | nil => rfl
+  | cons s r ih => simp only [List.all_cons, Bool.and_eq_true] at hl; simp [isPAssert_neutral s hl.1, ih hl.2]
 
 /-! ### the moves of the connection layer on (descriptor, connection state, child pid)
 
@@ -358,6 +372,8 @@ inductive Tr (p : Bool) (l : Lk) (δ : List Sys) (l' : Lk) : Prop
       δ = ν ++ [Sys.close x] → l' = ⟨none, 0, l.cpid⟩ → Tr p l δ l'
   /-- `_disconnect` -/
   | disconnect : δ = closeOf l.fd ++ reapOf p l.cpid → l' = ⟨none, 0, if p then none else l.cpid⟩ → Tr p l δ l'
+  /-- `assert(dev->finish_connect != NULL)` fires: only on a coprocess device that is CONNECTING (which `ChildInv` excludes) -/
+  | passert : p = true → l.conn = 1 → δ = [Sys.abort pAssertStr] → l' = l → Tr p l δ l'
 
 def FdInvL (l : Lk) : Prop := l.fd = none ↔ l.conn = 0
 def ChildInvL (p : Bool) (l : Lk) : Prop :=
@@ -403,6 +419,7 @@ theorem Tr.childInv {p l δ l'} (h : Tr p l δ l') (hi : ChildInvL p l) : ChildI
       · simp
     · simp
     · simp
+  | passert _ _ _ h2 => subst h2; exact ⟨a, b, c⟩
 
 theorem Tr.noAssert {p l δ l'} (h : Tr p l δ l') (hi : FdInvL l) : δ.any isCAssert = false := by
   unfold FdInvL at *
@@ -417,6 +434,22 @@ theorem Tr.noAssert {p l δ l'} (h : Tr p l δ l') (hi : FdInvL l) : δ.any isCA
   | disconnect h2 =>
     subst h2
     cases l.fd <;> cases p <;> cases l.cpid <;> simp [closeOf, reapOf, isCAssert]
+  | passert _ _ h2 _ => subst h2; decide
+
+/-- the fifth assert is reached only from a state in which a coprocess device is CONNECTING -/
+theorem Tr.noPAssert {p l δ l'} (h : Tr p l δ l') (hi : ChildInvL p l) : δ.any isPAssert = false := by
+  cases h with
+  | quiet h1 => exact noPAssert_neutral _ h1
+  | cassert s h1 _ h3 => subst h3; simp only [List.any_cons, List.any_nil, Bool.or_false, isPAssert]; revert h1; unfold isCAssertStr pAssertStr; intro h1; simp only [Bool.or_eq_true, beq_iff_eq] at h1; rcases h1 with ((h1 | h1) | h1) | h1 <;> subst h1 <;> decide
+  | tcpOpen x ν k _ h1 _ _ _ h2 => subst h2; simp [isPAssert, noPAssert_neutral _ h1]
+  | tcpOpenFail x ν _ h1 _ _ h2 => subst h2; simp [isPAssert, noPAssert_neutral _ h1]
+  | pipeOpen a pid _ _ _ h2 => subst h2; simp [isPAssert]
+  | finished ν h1 _ _ h2 => subst h2; exact noPAssert_neutral _ h1
+  | finishFail x ν h1 _ _ h2 => subst h2; simp [isPAssert, noPAssert_neutral _ h1]
+  | disconnect h2 =>
+    subst h2
+    cases l.fd <;> cases p <;> cases l.cpid <;> simp [closeOf, reapOf, isPAssert]
+  | passert hp h1 _ _ => exact absurd h1 (hi.2.2 hp)
 
 theorem Tr.fd_ledger {p l δ l'} (h : Tr p l δ l') : fdRun l.fd.toList δ = some l'.fd.toList := by
   cases h with
@@ -431,6 +464,7 @@ theorem Tr.fd_ledger {p l δ l'} (h : Tr p l δ l') : fdRun l.fd.toList δ = som
   | disconnect h2 h3 =>
     subst h2 h3
     cases l.fd <;> cases p <;> cases l.cpid <;> simp [closeOf, reapOf, fdRun, fdStep]
+  | passert _ _ h2 h3 => subst h2 h3; simp [fdRun, fdStep]
 
 theorem Tr.kid_ledger {p l δ l'} (h : Tr p l δ l') (hi : ChildInvL p l) :
     kidRun (l.cpid.toList, []) δ = some (l'.cpid.toList, []) := by
@@ -453,6 +487,7 @@ theorem Tr.kid_ledger {p l δ l'} (h : Tr p l δ l') (hi : ChildInvL p l) :
   | disconnect h2 h3 =>
     subst h2 h3
     cases hfd : l.fd <;> cases p <;> cases hcp : l.cpid <;> simp_all [closeOf, reapOf, kidRun, kidStep]
+  | passert _ _ h2 h3 => subst h2 h3; simp [kidRun, kidStep]
 
 /-! ### the functions of the connection layer perform only such moves -/
 
@@ -478,7 +513,7 @@ theorem Step.soft {c c' : CS} (h : SameFd c.dev c'.dev) (hs : c'.sys = c.sys) : 
 theorem finishConnectOne_shape (c : CS) :
     ∃ ν, ν.all neutral = true ∧ (finishConnectOne c).1.sys = c.sys ++ ν ∧
       (finishConnectOne c).1.dev.fd = c.dev.fd ∧ (finishConnectOne c).1.dev.cpid = c.dev.cpid ∧
-      (finishConnectOne c).1.dev.isPipe = c.dev.isPipe ∧ (finishConnectOne c).1.dev.curAddr = c.dev.curAddr ∧
+      (finishConnectOne c).1.dev.isPipe = c.dev.isPipe ∧ (finishConnectOne c).1.dev.cur = c.dev.cur ∧
       ((finishConnectOne c).2 = true → (finishConnectOne c).1.dev.conn = 2) ∧
       ((finishConnectOne c).2 = false → (finishConnectOne c).1.dev.conn = c.dev.conn) := by
   unfold finishConnectOne
@@ -493,7 +528,7 @@ theorem finishConnectOne_shape (c : CS) :
 /-- `tcp_connect_one`: `socket`, `connect`, and on failure `close` of that very socket -/
 theorem connectOne_shape (c : CS) :
     (connectOne c).1.dev.cpid = c.dev.cpid ∧ (connectOne c).1.dev.isPipe = c.dev.isPipe ∧
-    (connectOne c).1.dev.curAddr = c.dev.curAddr ∧
+    (connectOne c).1.dev.cur = c.dev.cur ∧
     ∃ x ν, ν.all neutral = true ∧
       (((connectOne c).2 = true ∧ (connectOne c).1.sys = c.sys ++ Sys.socket x :: ν ∧ (connectOne c).1.dev.fd = some x ∧
           ((connectOne c).1.dev.conn = 2 ∨ (connectOne c).1.dev.conn = c.dev.conn)) ∨
@@ -525,33 +560,73 @@ theorem connectOne_shape (c : CS) :
       · exact ⟨rfl, rfl, rfl, fd, [Sys.connect ans], rfl, Or.inr (Or.inl ⟨rfl, by simp, rfl, rfl⟩)⟩
   · exact ⟨rfl, rfl, rfl, 0, [Sys.abort "no socket/connect answer"], by decide, Or.inr (Or.inr ⟨rfl, rfl, rfl, rfl⟩)⟩
 
+/-- the pass state with `connect_state` set to `v` -/
+def setConn (c : CS) (v : Nat) : CS := { c with dev := { c.dev with conn := v } }
+
+/-- `DEV_NOT_CONNECTED` if the walk left `cur == NULL` -/
+def walkEnd (c : CS) : CS := if c.dev.cur.isNone then setConn c 0 else c
+
+/-- **the address walk** (`while (tcp->cur && !tcp_connect_one(dev, tcp->cur)) tcp->cur = tcp->cur->ai_next`), entered — as both
+    callers enter it — without a descriptor and in state CONNECTING, followed by the callers' `if (tcp->cur == NULL)
+    connect_state = DEV_NOT_CONNECTED`: seen from outside (the state read as NOT_CONNECTED while no descriptor is held) it is a
+    sequence of moves — one `tcpOpenFail` per address that fails (its socket is closed before the next address is tried), then
+    at most one `tcpOpen` -/
+theorem connectWalk_moves (n : Nat) (c : CS) (hp : c.dev.isPipe = false) (hfd : c.dev.fd = none) (h1 : c.dev.conn = 1) :
+    Moves (setConn c 0) (walkEnd (connectWalk n c)) := by
+  induction n generalizing c with
+  | zero =>
+    unfold connectWalk walkEnd
+    simp only [Option.isNone_none, ↓reduceIte]
+    exact .single (Step.soft ⟨rfl, rfl, rfl, rfl⟩ rfl)
+  | succ n ih =>
+    unfold connectWalk
+    split
+    · rename_i hcur
+      unfold walkEnd; simp only [hcur, Option.isNone_none, ↓reduceIte]
+      exact .refl _
+    · rename_i i hcur
+      obtain ⟨hcp, hpi, hcu, x, ν, hν, hsh⟩ := connectOne_shape c
+      split
+      · rename_i hok
+        simp only [hok, reduceCtorEq, false_and, or_false, true_and] at hsh
+        obtain ⟨hs, hf, hk⟩ := hsh
+        have hne : (connectOne c).1.dev.cur.isNone = false := by rw [hcu, hcur]; rfl
+        unfold walkEnd; simp only [hne, Bool.false_eq_true, ↓reduceIte]
+        refine .single ⟨hpi, _, hs, .tcpOpen x ν (connectOne c).1.dev.conn hp hν (by omega) (by simp [setConn, lk, hfd]) (by simp [setConn, lk]) rfl
+          (by simp [setConn, lk, hf, hcp])⟩
+      · rename_i hok
+        have hok' : (connectOne c).2 = false := by simpa using hok
+        simp only [hok', reduceCtorEq, false_and, false_or, true_and] at hsh
+        have hfd2 : (connectOne c).1.dev.fd = none := by
+          rcases hsh with ⟨_, hf, _⟩ | ⟨_, hf, _⟩
+          · exact hf
+          · rw [hf]; exact hfd
+        have hc2 : (connectOne c).1.dev.conn = 1 := by
+          rcases hsh with ⟨_, _, hk⟩ | ⟨_, _, hk⟩ <;> rw [hk] <;> exact h1
+        have hstep : Step (setConn c 0) (setConn { (connectOne c).1 with dev := { (connectOne c).1.dev with cur := aiNext c.dev.naddr i } } 0) := by
+          refine ⟨hpi, ?_⟩
+          rcases hsh with ⟨hs, hf, _⟩ | ⟨hs, hf, _⟩
+          · exact ⟨_, hs, .tcpOpenFail x ν hp hν (by simp [setConn, lk, hfd]) (by simp [setConn, lk]) rfl (by simp [setConn, lk, hf, hfd, hcp])⟩
+          · exact ⟨_, hs, .quiet hν (by simp [setConn, lk, hf, hfd, hcp])⟩
+        exact (Moves.single hstep).trans
+          (ih { (connectOne c).1 with dev := { (connectOne c).1.dev with cur := aiNext c.dev.naddr i } } (hpi.trans hp) hfd2 hc2)
+
 /-- `tcp_connect`, called in state NOT_CONNECTED -/
-theorem tcpConnect_step (c : CS) (hp : c.dev.isPipe = false) (h0 : c.dev.conn = 0) : Step c (tcpConnect c).1 := by
+theorem tcpConnect_moves (c : CS) (hp : c.dev.isPipe = false) (h0 : c.dev.conn = 0) : Moves c (tcpConnect c).1 := by
   unfold tcpConnect
   simp only [h0, bne_self_eq_false, Bool.false_eq_true, ↓reduceIte]
   cases hfs : c.dev.fd.isSome with
   | true =>
     simp only [↓reduceIte]
     have : c.dev.fd ≠ none := by intro h; simp [h] at hfs
-    exact ⟨rfl, _, rfl, .cassert _ (by decide) (by simp [lk, this, h0]) rfl rfl⟩
+    exact .single ⟨rfl, _, rfl, .cassert _ (by decide) (by simp [lk, this, h0]) rfl rfl⟩
   | false =>
     have hfd : c.dev.fd = none := by simpa using hfs
     simp only [Bool.false_eq_true, ↓reduceIte]
-    obtain ⟨hcp, hpi, hcu, x, ν, hν, hsh⟩ := connectOne_shape { c with dev := { c.dev with conn := 1, curAddr := true } }
-    generalize connectOne _ = r at *
-    obtain ⟨c2, ok⟩ := r
-    simp only at hcp hpi hcu hsh
-    cases ok
-    · simp only [Bool.false_eq_true, ↓reduceIte, Bool.not_false]
-      simp only [reduceCtorEq, false_and, false_or, true_and] at hsh
-      refine ⟨hpi, ?_⟩
-      rcases hsh with ⟨hs, hf, _⟩ | ⟨hs, hf, _⟩
-      · exact ⟨_, hs, .tcpOpenFail x ν hp hν (by simp [lk, hfd]) (by simp [lk, h0]) rfl (by simp [lk, hf, hfd, h0, hcp])⟩
-      · exact ⟨_, hs, .quiet hν (by simp [lk, hf, hfd, h0, hcp])⟩
-    · simp only [↓reduceIte, hcu, Bool.not_true, Bool.false_eq_true]
-      simp only [reduceCtorEq, false_and, or_false, true_and] at hsh
-      obtain ⟨hs, hf, hk⟩ := hsh
-      refine ⟨hpi, _, hs, .tcpOpen x ν c2.dev.conn hp hν (by omega) (by simp [lk, hfd]) (by simp [lk, h0]) rfl (by simp [lk, hf, hcp])⟩
+    have hw := connectWalk_moves c.dev.naddr { c with dev := { c.dev with conn := 1, cur := some 0 } } hp hfd rfl
+    have h1 : Step c (setConn { c with dev := { c.dev with conn := 1, cur := some 0 } } 0) :=
+      Step.soft ⟨rfl, h0.symm, rfl, rfl⟩ rfl
+    exact (Moves.single h1).trans hw
 
 /-- `pipe_connect`, called in state NOT_CONNECTED -/
 theorem pipeConnect_step (c : CS) (hp : c.dev.isPipe = true) (h0 : c.dev.conn = 0) : Step c (pipeConnect c).1 := by
@@ -592,19 +667,25 @@ theorem connTail_same (r : CS × Bool) : SameFd r.1.dev (connTail r).dev ∧ (co
   · exact ⟨⟨rfl, rfl, rfl, rfl⟩, rfl⟩
   · exact ⟨SameFd.rfl' _, rfl⟩
 
+theorem Moves.of_same {c c1 c' : CS} (h : SameFd c.dev c1.dev) (hs : c1.sys = c.sys) (hm : Moves c1 c') : Moves c c' :=
+  (Moves.single (Step.soft h hs)).trans hm
+
+theorem Moves.to_same {c c' c'' : CS} (hm : Moves c c') (h : SameFd c'.dev c''.dev) (hs : c''.sys = c'.sys) : Moves c c'' :=
+  .tail hm (Step.soft h hs)
+
 /-- `_connect`, called in state NOT_CONNECTED -/
-theorem connectDev_step (c : CS) (h0 : c.dev.conn = 0) : Step c (connectDev c) := by
+theorem connectDev_moves (c : CS) (h0 : c.dev.conn = 0) : Moves c (connectDev c) := by
   rw [connectDev_eq]
   have hb : SameFd c.dev (bump c).dev := ⟨rfl, rfl, rfl, rfl⟩
   have h0' : (bump c).dev.conn = 0 := h0
   have hbs : (bump c).sys = c.sys := rfl
   generalize bump c = c1 at *
-  refine Step.of_same hb hbs ?_
+  refine Moves.of_same hb hbs ?_
   · split
     · rename_i hp
-      exact (pipeConnect_step c1 hp h0').to_same (connTail_same _).1 (connTail_same _).2
+      exact (Moves.single (pipeConnect_step c1 hp h0')).to_same (connTail_same _).1 (connTail_same _).2
     · rename_i hp
-      exact (tcpConnect_step c1 (by simpa using hp) h0').to_same (connTail_same _).1 (connTail_same _).2
+      exact (tcpConnect_moves c1 (by simpa using hp) h0').to_same (connTail_same _).1 (connTail_same _).2
 
 /-- `_disconnect` cut into `close`, reap, and the bookkeeping of `_disconnect` itself -/
 def dcClose (c : CS) : CS :=
@@ -664,7 +745,7 @@ theorem reconnectDev_moves (c : CS) (tmo : Option Time) : Moves c (reconnectDev 
     · rename_i h; simpa using h
   generalize (if (c.dev.conn != 0) = true then disconnectDev c else c) = c1 at *
   split
-  · exact .tail h1 (connectDev_step c1 h0)
+  · exact h1.trans (connectDev_moves c1 h0)
   · exact h1
   · exact h1
 
@@ -673,10 +754,7 @@ theorem reconnectDev_moves (c : CS) (tmo : Option Time) : Moves c (reconnectDev 
 /-- POLLOUT while CONNECTING: `tcp_finish_connect` -/
 def hrFinish (c : CS) : CS × Bool × Bool :=
   let (c, ok) := finishConnectOne c
-  let c := if ok then c else
-    match c.dev.fd with
-    | some fd => { c with sys := c.sys ++ [.close fd], dev := { c.dev with fd := none, curAddr := false, conn := 0 } }
-    | none => { c with dev := { c.dev with curAddr := false, conn := 0 } }
+  let c := if ok then c else finishConnectFail c
   if c.dev.conn == 0 then (c, true, true)
   else if c.dev.conn == 2 then ({ c with dev := enqueueLogin c.dev }, false, true)
   else (c, false, true)
@@ -690,7 +768,11 @@ def hrWrite (c : CS) : CS × Bool × Bool :=
   else ({ c with sys := c.sys ++ [.write c.dev.toBuf false] }, true, false)
 
 def hrOut (f : Nat) (c : CS) : CS × Bool × Bool :=
-  if f &&& 2 != 0 then (if c.dev.conn == 1 then hrFinish c else hrWrite c) else (c, false, false)
+  if f &&& 2 != 0 then
+    (if c.dev.conn == 1 then
+      (if c.dev.isPipe then ({ c with sys := c.sys ++ [.abort "assert finish_connect != NULL"], aborted := true }, false, true) else hrFinish c)
+     else hrWrite c)
+  else (c, false, false)
 
 /-- `_handle_read` after the capacity half (`clipRead`), and the telnet preprocessing -/
 def hrRd (c : CS) : CS × Bool :=
@@ -715,26 +797,54 @@ theorem handleReady_eq (c : CS) :
       if (hrOut c.env.revents c).2.2 then ((hrOut c.env.revents c).1, false) else
       hrIn c.env.revents (hrOut c.env.revents c).1 := rfl
 
-theorem hrFinish_step (c : CS) (hfd : c.dev.fd.isSome = true) (h1 : c.dev.conn = 1) : Step c (hrFinish c).1 := by
+theorem closeFd_shape (c : CS) : (closeFd c).sys = c.sys ++ closeOf c.dev.fd ∧ (closeFd c).dev.fd = none ∧
+    (closeFd c).dev.cpid = c.dev.cpid ∧ (closeFd c).dev.isPipe = c.dev.isPipe ∧ (closeFd c).dev.conn = c.dev.conn ∧
+    (closeFd c).dev.cur = c.dev.cur ∧ (closeFd c).dev.naddr = c.dev.naddr := by
+  unfold closeFd; split
+  · rename_i fd h; simp [h, closeOf]
+  · rename_i h; simp [h, closeOf]
+
+/-- `tcp_finish_connect` after a failed `SO_ERROR`: the pending socket is closed (`finishFail`), then the walk goes on -/
+theorem finishConnectFail_moves (c0 c : CS) (ν : List Sys) (hν : ν.all neutral = true) (hs : c.sys = c0.sys ++ ν)
+    (hsame : SameFd c0.dev c.dev) (hp : c0.dev.isPipe = false) (x : Nat) (hx : c0.dev.fd = some x) (h1 : c0.dev.conn = 1) :
+    Moves c0 (finishConnectFail c) := by
+  unfold finishConnectFail
+  obtain ⟨a1, a2, a3, a4, a5, a6, a7⟩ := closeFd_shape c
+  generalize closeFd c = c1 at *
+  have hfd : c.dev.fd = some x := hsame.fd.trans hx
+  have hstep : Step c0 (setConn c1 0) :=
+    ⟨a4.trans hsame.isPipe, ν ++ [Sys.close x], by simp [setConn, a1, hs, hfd, closeOf],
+      .finishFail x ν hν (by simp [lk, hx]) (by simp [lk, h1]) rfl (by simp [setConn, lk, a2, a3, hsame.cpid])⟩
+  split
+  · exact .tail (.single hstep) ⟨rfl, [Sys.abort "tcp->cur == NULL in tcp_finish_connect"], rfl, .quiet (by decide) rfl⟩
+  · rename_i i _
+    dsimp only
+    have hc1 : c1.dev.conn = 1 := by rw [a5, hsame.conn, h1]
+    have hw := connectWalk_moves c1.dev.naddr { c1 with dev := { c1.dev with cur := aiNext c1.dev.naddr i } }
+      (by simp [a4, hsame.isPipe, hp]) a2 hc1
+    have hsoft : Step (setConn c1 0) (setConn { c1 with dev := { c1.dev with cur := aiNext c1.dev.naddr i } } 0) :=
+      Step.soft ⟨rfl, rfl, rfl, rfl⟩ rfl
+    exact (Moves.single hstep).trans ((Moves.single hsoft).trans hw)
+
+theorem hrFinish_moves (c : CS) (hp : c.dev.isPipe = false) (hfd : c.dev.fd.isSome = true) (h1 : c.dev.conn = 1) :
+    Moves c (hrFinish c).1 := by
   unfold hrFinish
   obtain ⟨ν, hν, hs, hf, hcp, hpi, _, hok, hno⟩ := finishConnectOne_shape c
-  generalize finishConnectOne c = r at *
-  obtain ⟨c2, ok⟩ := r
-  simp only at hs hf hcp hpi hok hno
   obtain ⟨x, hx⟩ := Option.isSome_iff_exists.mp hfd
-  cases ok
-  · simp only [Bool.false_eq_true, ↓reduceIte]
+  dsimp only
+  cases hb : (finishConnectOne c).2
+  · have hm : Moves c (finishConnectFail (finishConnectOne c).1) :=
+      finishConnectFail_moves c _ ν hν hs ⟨hf, hno hb, hcp, hpi⟩ hp x hx h1
+    simp only [Bool.false_eq_true, ↓reduceIte]
+    generalize finishConnectFail (finishConnectOne c).1 = c2 at *
     split
-    · rename_i fd hfd2
-      have hxx : fd = x := by rw [hf, hx] at hfd2; exact (Option.some.inj hfd2).symm
-      subst hxx
-      simp only [beq_self_eq_true, ↓reduceIte]
-      exact ⟨hpi, ν ++ [Sys.close fd], by simp [hs], .finishFail fd ν hν (by simp [lk, hx]) (by simp [lk, h1]) rfl (by simp [lk, hcp])⟩
-    · rename_i hfd2
-      rw [hf, hx] at hfd2; cases hfd2
-  · have h2 : c2.dev.conn = 2 := hok rfl
+    · exact hm
+    · split
+      · exact hm.to_same ⟨rfl, rfl, rfl, rfl⟩ rfl
+      · exact hm
+  · have h2 : (finishConnectOne c).1.dev.conn = 2 := hok hb
     simp only [↓reduceIte, h2]
-    exact ⟨hpi, ν, hs, .finished ν hν (by simp [lk, hfd]) (by simp [lk, h1]) rfl (by simp [lk, enqueueLogin, hf, h2, hcp])⟩
+    exact .single ⟨hpi, ν, hs, .finished ν hν (by simp [lk, hfd]) (by simp [lk, h1]) rfl (by simp [lk, enqueueLogin, hf, h2, hcp])⟩
 
 theorem hrWrite_step (c : CS) : Step c (hrWrite c).1 := by
   unfold hrWrite
@@ -746,13 +856,16 @@ theorem hrWrite_step (c : CS) : Step c (hrWrite c).1 := by
       · exact ⟨rfl, [Sys.write (c.dev.toBuf.take c.env.wcap) true], rfl, .quiet rfl rfl⟩
     · exact ⟨rfl, [Sys.write c.dev.toBuf false], rfl, .quiet rfl rfl⟩
 
-theorem hrOut_step (f : Nat) (c : CS) (hfd : c.dev.fd.isSome = true) : Step c (hrOut f c).1 := by
+theorem hrOut_moves (f : Nat) (c : CS) (hfd : c.dev.fd.isSome = true) : Moves c (hrOut f c).1 := by
   unfold hrOut
   split
   · split
-    · rename_i h; exact hrFinish_step c hfd (by simpa using h)
-    · exact hrWrite_step c
-  · exact Step.soft (SameFd.rfl' _) rfl
+    · rename_i h
+      split
+      · rename_i hp; exact .single ⟨rfl, _, rfl, .passert hp (by simpa [lk] using h) rfl rfl⟩
+      · rename_i hp; exact hrFinish_moves c (by simpa using hp) hfd (by simpa using h)
+    · exact .single (hrWrite_step c)
+  · exact .refl c
 
 theorem telnetFilter_sameFd (d : Dev) (bs : Bytes) : SameFd d (telnetFilter d bs) := by
   unfold telnetFilter; exact ⟨rfl, rfl, rfl, rfl⟩
@@ -794,14 +907,14 @@ theorem handleReady_moves (c : CS) (hfd : c.dev.fd.isSome = true) : Moves c (han
     · rename_i h; rw [Option.isNone_iff_eq_none] at h; simp [h] at hfd
     · split
       · exact .refl c
-      · have h1 := hrOut_step c.env.revents c hfd
+      · have h1 := hrOut_moves c.env.revents c hfd
         have h2 := hrIn_moves c.env.revents (hrOut c.env.revents c).1
         generalize hrOut c.env.revents c = r at *
         split
-        · exact .single h1
+        · exact h1
         · split
-          · exact .single h1
-          · exact (Moves.single h1).trans h2
+          · exact h1
+          · exact h1.trans h2
 
 /-! ### from moves to everything -/
 
@@ -843,6 +956,12 @@ theorem stepInv_noAssert : StepInv fun c => FdInv c.dev ∧ c.sys.any isCAssert 
   intro c c' ⟨_, δ, hs, ht⟩ ⟨h1, h2⟩
   refine ⟨ht.fdInv h1, ?_⟩
   rw [hs, List.any_append, h2, ht.noAssert h1]; rfl
+
+/-- the fifth assert is not in the log, as long as the child invariant holds -/
+theorem stepInv_noPAssert : StepInv fun c => ChildInv c.dev ∧ c.sys.any isPAssert = false := by
+  intro c c' ⟨hp, δ, hs, ht⟩ ⟨h1, h2⟩
+  refine ⟨stepInv_childInv c c' ⟨hp, δ, hs, ht⟩ h1, ?_⟩
+  rw [hs, List.any_append, h2, ht.noPAssert h1]; rfl
 
 /-- descriptor ledger: replaying the log from the descriptors held at the start never closes a descriptor that is
     not open and ends with exactly the descriptor the device holds -/
@@ -1206,11 +1325,8 @@ theorem handleReady_keeps_dev {P : Dev → Prop} (hI : StepInv fun c => P c.dev)
 
 /-! ### every function of the pass is a sequence of moves -/
 
-theorem tcpConnect_moves (c : CS) (hp : c.dev.isPipe = false) (h0 : c.dev.conn = 0) : Moves c (tcpConnect c).1 :=
-  .single (tcpConnect_step c hp h0)
 theorem pipeConnect_moves (c : CS) (hp : c.dev.isPipe = true) (h0 : c.dev.conn = 0) : Moves c (pipeConnect c).1 :=
   .single (pipeConnect_step c hp h0)
-theorem connectDev_moves (c : CS) (h0 : c.dev.conn = 0) : Moves c (connectDev c) := .single (connectDev_step c h0)
 theorem disconnectDev_moves (c : CS) : Moves c (disconnectDev c) := .single (disconnectDev_step c)
 
 theorem failAll_moves (rest : List Action) (c : CS) (a : Action) (o : Oracle) (out : List Out) (tmo : Option Time) :
@@ -1241,6 +1357,7 @@ structure Keeps (c c' : CS) : Prop where
   childInv : ChildInv c.dev → ChildInv c'.dev
   connRange : ConnRange c.dev → ConnRange c'.dev
   noAssert : FdInv c.dev → c.sys.any isCAssert = false → c'.sys.any isCAssert = false
+  noPAssert : ChildInv c.dev → c.sys.any isPAssert = false → c'.sys.any isPAssert = false
   fdLedger : ∀ h0, fdRun h0 c.sys = some c.dev.fd.toList → fdRun h0 c'.sys = some c'.dev.fd.toList
   kidLedger : ∀ k0, ChildInv c.dev → kidRun k0 c.sys = some (c.dev.cpid.toList, []) →
     kidRun k0 c'.sys = some (c'.dev.cpid.toList, [])
@@ -1256,6 +1373,7 @@ theorem Moves.keeps_all {c c' : CS} (hm : Moves c c') : Keeps c c' where
   childInv h := hm.keeps stepInv_childInv h
   connRange h := hm.keeps stepInv_connRange h
   noAssert h1 h2 := (hm.keeps stepInv_noAssert ⟨h1, h2⟩).2
+  noPAssert h1 h2 := (hm.keeps stepInv_noPAssert ⟨h1, h2⟩).2
   fdLedger h0 h := hm.keeps (stepInv_fdLedger h0) h
   kidLedger k0 h1 h2 := (hm.keeps (stepInv_kidLedger k0) ⟨h1, h2⟩).2
 
